@@ -174,21 +174,33 @@ class Merger:
                 # Short-circuit the deep merge if a different merge rule
                 # applies to this node.
                 node_coord = NodeCoords(val, rhs, key)
-                merge_mode = (
-                    self.config.hash_merge_mode(node_coord)
-                    if isinstance(val, CommentedMap)
-                    else self.config.set_merge_mode(node_coord)
-                    if isinstance(val, CommentedSet)
-                    else self.config.aoh_merge_mode(node_coord)
-                )
+                # The default Array-of-Hashes mode applies to Arrays-of-Hashes
+                # only; other Arrays follow the Array mode and Scalars obey
+                # nothing but an explicit per-path rule.
+                merge_mode: Any = None
+                if isinstance(val, CommentedMap):
+                    merge_mode = self.config.hash_merge_mode(node_coord)
+                elif isinstance(val, CommentedSet):
+                    merge_mode = self.config.set_merge_mode(node_coord)
+                elif (isinstance(val, CommentedSeq)
+                      and len(val) > 0
+                      and not isinstance(val[0], CommentedMap)
+                ):
+                    merge_mode = self.config.array_merge_mode(node_coord)
+                elif (isinstance(val, CommentedSeq)
+                      or self.config.has_merge_rule(node_coord)
+                ):
+                    merge_mode = self.config.aoh_merge_mode(node_coord)
                 self.logger.debug("Merger::_merge_dicts:  Got merge mode, {}."
                                   .format(merge_mode))
                 if merge_mode in (
-                    HashMergeOpts.LEFT, AoHMergeOpts.LEFT, SetMergeOpts.LEFT
+                    HashMergeOpts.LEFT, AoHMergeOpts.LEFT, SetMergeOpts.LEFT,
+                    ArrayMergeOpts.LEFT
                 ):
                     continue
                 if merge_mode in (
-                    HashMergeOpts.RIGHT, AoHMergeOpts.RIGHT, SetMergeOpts.RIGHT
+                    HashMergeOpts.RIGHT, AoHMergeOpts.RIGHT, SetMergeOpts.RIGHT,
+                    ArrayMergeOpts.RIGHT
                 ):
                     self.logger.debug(
                         "Merger::_merge_dicts:  Overwriting key, {}, at path,"
